@@ -60,9 +60,18 @@ func cmdConcRace(args []string) error {
 			start := rnd.Intn(len(all) - 2000)
 			lines = append(lines, all[start:start+2000]...)
 		}
+		// a $domain bucket with several rules, and referrers on different sub-domains of that domain: the lookups share
+		// the bucket of the parent
+		lines = append(lines, "/k1$domain=example.org,script", "/k2$domain=example.org,script", "/k3$domain=example.org,script",
+			"/k1$domain=a.example.org,script", "/k2$domain=b.example.org,script", "/k3$domain=sub.example.org,script", "@@/k2$domain=b.example.org,script")
 		var qs []*histQuery
 		for i := 0; i < 60; i++ {
 			qs = append(qs, rndHistQuery(rnd))
+		}
+		for _, src := range []string{"a.example.org", "b.example.org", "sub.example.org", "example.org", "x.a.example.org"} {
+			for _, kind := range []string{"net", "web"} {
+				qs = append(qs, &histQuery{kind: kind, host: "static.site.com", url: "http://static.site.com/k1/k2/k3/x.js", src: "https://" + src + "/", typ: rules.TypeScript})
+			}
 		}
 		work := make([]*histQuery, 0, 400)
 		for i := 0; i < 400; i++ {
